@@ -220,6 +220,26 @@ func ruleReceiveOrder(c *Ctx, r *Report) {
 		return false
 	}
 	marksOwnRecord := c.marksOwnRecord
+	// a private helper cut out of a consumer: all its call sites are known and lie in consumers
+	var helperOfConsumer func(fn *ssa.Function, d int) bool
+	helperOfConsumer = func(fn *ssa.Function, d int) bool {
+		if fn == nil || d > 2 {
+			return false
+		}
+		sites, closed := c.staticCallers(fn)
+		if !closed || len(sites) == 0 {
+			return false
+		}
+		for _, s := range sites {
+			if _, ok := allowed[short(s.Fn)]; ok {
+				continue
+			}
+			if !helperOfConsumer(s.Fn, d+1) {
+				return false
+			}
+		}
+		return true
+	}
 	var names []string
 	for n := range cons {
 		names = append(names, n)
@@ -237,6 +257,9 @@ func ruleReceiveOrder(c *Ctx, r *Report) {
 			r.OKTrivial("replay-commit-consumers", n, "", "marks the numbers of the imported receive position, taken from the connection's own state")
 		} else if region[c.Fn(n)] {
 			// already reported above
+		} else if helperOfConsumer(c.Fn(n), 0) {
+			nCons++
+			r.OKTrivial("replay-commit-consumers", n, "", "private helper whose every caller is a consumer of an authenticated record")
 		} else {
 			r.Bad("replay-commit-consumers", n, "", "the replay accept closure is invoked by a function that is not a consumer of an authenticated record")
 		}
@@ -517,18 +540,23 @@ func ruleReplayWindow(c *Ctx, r *Report) {
 			in  *ssa.Function
 			pos string
 		}
-		insts := []inst{{call.Call.Args[1], s.Fn, c.ipos(call)}}
-		if p, isP := call.Call.Args[1].(*ssa.Parameter); isP {
-			if callers, closed := c.staticCallers(s.Fn); closed && len(callers) > 0 {
-				insts = nil
-				for _, cs := range callers {
-					args := cs.Call.Common().Args
-					if pi := paramIndex(p); pi >= 0 && pi < len(args) {
-						insts = append(insts, inst{args[pi], cs.Fn, c.ipos(cs.Call.(ssa.Instruction))})
+		var insts []inst
+		var resolve func(v ssa.Value, in *ssa.Function, pos string, d int)
+		resolve = func(v ssa.Value, in *ssa.Function, pos string, d int) {
+			if p, isP := v.(*ssa.Parameter); isP && d < 4 {
+				if callers, closed := c.staticCallers(in); closed && len(callers) > 0 {
+					for _, cs := range callers {
+						args := cs.Call.Common().Args
+						if pi := paramIndex(p); pi >= 0 && pi < len(args) {
+							resolve(args[pi], cs.Fn, c.ipos(cs.Call.(ssa.Instruction)), d+1)
+						}
 					}
+					return
 				}
 			}
+			insts = append(insts, inst{v, in, pos})
 		}
+		resolve(call.Call.Args[1], s.Fn, c.ipos(call), 0)
 		for _, it := range insts {
 			nInst++
 			k, isC := constInt(it.v)
@@ -1026,7 +1054,7 @@ func ruleCommitMarksWindow(c *Ctx, r *Report) {
 			r.Check(len(w.Returns) == 0, rule, key, c.ipos(ret), "every path of the commit function marks the sequence number in the detector", "the commit function can return without calling the detector's accept function: a record delivered on that path is not marked as received and every duplicate of it inside the window is delivered again")
 		}
 	}
-	r.Floor(rule, n, 2)
+	r.Floor(rule, n, 1)
 }
 
 // ruleSeqReconstruction (C06, DTLS 1.3): RFC 9147 4.2.2 reconstructs the full record number as the
@@ -1532,6 +1560,12 @@ func (c *Ctx) marksOwnRecord(fn *ssa.Function) bool {
 						if ia, ok := x.Call.Args[0].(*ssa.IndexAddr); ok && addrIntoField(ia, tCom, "RemoteSequenceNumber") {
 							return
 						}
+					}
+					if nm := calleeName(&x.Call); nm == "builtin:min" || nm == "builtin:max" {
+						for _, a := range x.Call.Args {
+							visit(a, d+1)
+						}
+						return
 					}
 					fromState = false
 				default:
